@@ -63,7 +63,9 @@ func newPromiseFromThread(thread *Thread, threadPool *ThreadPool, generator *Gen
 	}
 	p.wg.Add(1)
 
+	verifAsync("addtask:before", nil, p, thread)
 	enqueueTask(threadPool.TaskQueue, p)
+	verifAsync("addtask:after", nil, p, thread)
 	return p
 }
 
